@@ -1,6 +1,6 @@
 (* C11 - corrupt or hostile bytecode files fail cleanly (partial: see tools/props/c11.py). *)
 From Xdis Require Import Base.Prelude Base.Result Model.Magic Model.Load Model.Unmarshal Model.UnmarshalObs Model.LoadModule Gen.Magics
-  Proofs.LoadModuleProofs.
+  Proofs.LoadModuleProofs Proofs.TerminationProofs.
 
 (* For EVERY byte string - every prefix, every mutation, not bytecode at all - the model of
    load_module either returns its tuple or raises ImportError: nothing raised by the size check,
@@ -10,6 +10,16 @@ From Xdis Require Import Base.Prelude Base.Result Model.Magic Model.Load Model.U
 Theorem C11_only_importerror : forall dropbox_ok bs,
   load_module_outcome dropbox_ok bs = Returned \/ load_module_outcome dropbox_ok bs = Raised ImportErr.
 Proof. exact only_importerror. Qed.
+
+(* Termination of the reader: for EVERY configuration (xdis's, CPython's of any version, xdis.marsh's) and EVERY byte string the
+   reader model, given the fuel `load` always gives it (one more than the number of input bytes), never runs out of fuel -
+   every recursion and every loop ends because input is used up (each object takes at least one byte, each digit two).  So the
+   ImportError of the theorem above never stands for "the model gave up", and a successful read has consumed at least a byte. *)
+Theorem C11_reader_never_out_of_fuel : forall c bs, load c bs <> Err OutOfFuel.
+Proof. exact load_never_out_of_fuel. Qed.
+
+Theorem C11_reader_consumes : forall c bs v st, load c bs = Ok (v, st) -> (List.length (inp st) < List.length bs)%nat.
+Proof. exact load_consumes. Qed.
 
 Theorem C11_tuples : tuples_ok = true.
 Proof. exact tuples_ok_true. Qed.
